@@ -120,6 +120,9 @@ pub mod sha2 {
         pub fn update(&mut self, data: &Vec<u8>) ensures final(self).absorbed@ == old(self).absorbed@ + data@ { unimplemented!() }
         #[verifier::external_body]
         pub fn finalize(self) -> (r: Output) ensures r.bytes@ == sha256_spec(self.absorbed@) { unimplemented!() }
+        /// `Digest::digest(data)`: hash in one call
+        #[verifier::external_body]
+        pub fn digest(data: &Vec<u8>) -> (r: Output) ensures r.bytes@ == sha256_spec(data@) { unimplemented!() }
     }
 }
 pub mod hex {
@@ -232,7 +235,7 @@ impl PackageBuilder {
             && options.destination@ == seq!['.'] + #[trigger] (d + slash() + n)
             ==> recorded(r, *final(self), d, n),''',
        prologue='proof { lemma_strlits(); } broadcast use lemma_dest_shape;',
-       before=[('        let mut hasher = sha2::Sha256::default();', '''        proof {
+       before=[('        let entry = PackageFileEntry {', '''        proof {
             assert forall|d: Seq<char>, n: Seq<char>| clean_dir(d) && normal_comp(n)
                 && (dest@ == #[trigger] (d + slash() + n) || dest@ == seq!['.'] + (d + slash() + n))
                 implies dir@ =~= d + slash() && base_name@ == n && cpio_path@ =~= seq!['.'] + d + slash() + n by {
